@@ -271,6 +271,7 @@ func checkC13(c *Ctx) {
 	c.rule("C13.R5", "only \\[ and \\] are unescaped by the markup parser", 1)
 	c.rule("C13.R6", "the marker position is the character count of the text built so far (measured from the builder, or every builder write paired with its increment)", 1)
 	c.rule("C13.R7", "ordinal/plural category guards select CLDR's English categories on 0…999 (constant evaluation of the extracted guard expressions)", 1)
+	c.rule("C13.R8", "a decimal property value is a function of the fraction's digits as written: the float stored for a decimal literal depends on a string read from the line (not only on integers parsed from it, which cannot tell 05 from 5)", 1)
 	mp := w.Pkg("markup")
 	if mp == nil {
 		c.undecided("C13", "package markup not loaded")
@@ -283,6 +284,7 @@ func checkC13(c *Ctx) {
 	c13Escapes(c)
 	c13Position(c)
 	c13Ordinal(c)
+	c13Decimal(c)
 }
 
 // ---------- R2 ----------
@@ -1018,4 +1020,84 @@ func measuresBuilder(info *types.Info, e ast.Expr, builder types.Object) bool {
 		return isBString(call.Args[0])
 	}
 	return false
+}
+
+// c13Decimal: information flow, not arithmetic. The value of a decimal literal i.f depends on how many leading zeros f
+// has; an integer parsed from f has forgotten them. So whatever formula computes the float, it must take in the fraction
+// as text: the expression stored in FloatValue must depend (through locals assigned once) on a string-typed result of a
+// function of the markup package that reads the line. A formula over parsed integers only (i + f·10^-len(Itoa(f))) is
+// wrong on every fraction with a leading zero — 1.05 read as 1.5 — whatever its shape.
+func c13Decimal(c *Ctx) {
+	w := c.W
+	mp := w.Pkg("markup")
+	info := mp.TypesInfo
+	n := 0
+	for _, f := range w.FuncsIn(mp) {
+		if f.Body == nil || f.Lit != nil {
+			continue
+		}
+		x := w.expander(f)
+		walkNoLit(f.Body, func(q ast.Node) bool {
+			cl, ok := q.(*ast.CompositeLit)
+			if !ok {
+				return true
+			}
+			if tv, ok := info.Types[cl]; !ok || typeStr(tv.Type) != "markup.Value" {
+				return true
+			}
+			fv := litField(cl, "FloatValue")
+			if fv == nil {
+				return true
+			}
+			if tv, ok := info.Types[fv]; ok && tv.Value != nil {
+				return true // a constant
+			}
+			n++
+			c.fn(f)
+			// dependency closure through locals assigned once
+			found := ""
+			onlyInts := true
+			var visit func(e ast.Node, depth int)
+			visit = func(e ast.Node, depth int) {
+				ast.Inspect(e, func(z ast.Node) bool {
+					switch y := z.(type) {
+					case *ast.CallExpr:
+						if callee := calleeOf(info, y); callee != nil && callee.Pkg() != nil && callee.Pkg().Path() == mp.PkgPath {
+							if sig, ok := callee.Type().(*types.Signature); ok {
+								for i := 0; i < sig.Results().Len(); i++ {
+									if bt, ok := sig.Results().At(i).Type().Underlying().(*types.Basic); ok && bt.Kind() == types.String {
+										// is that result the one used? a single-value use, or result 0 of a (string, error) pair
+										if i == 0 {
+											found = callee.Name()
+										}
+									}
+								}
+							}
+						}
+					case *ast.Ident:
+						if v, ok := info.Uses[y].(*types.Var); ok && !v.IsField() && depth < 8 {
+							if rhs, _, _, ok := x.def(v); ok && rhs != nil {
+								visit(rhs, depth+1)
+							} else if bt, ok := v.Type().Underlying().(*types.Basic); !ok || bt.Info()&types.IsInteger == 0 {
+								onlyInts = false
+							}
+						}
+					}
+					return true
+				})
+			}
+			visit(fv, 0)
+			ok2 := found != ""
+			why := "the decimal value takes in the digits as text (result of " + found + "): leading zeros of the fraction are not lost"
+			if !ok2 {
+				why = "the decimal value (" + shorten(x.str(fv), 140) + ") is computed from parsed integers only: a fraction's leading zeros are forgotten before the value is formed, so 1.05 reads as 1.5 and 0.001 as 0.1"
+			}
+			_ = onlyInts
+			c.ob("C13.R8", f.Name+"/decimal-value#"+itoa(n), w.Pos(cl.Pos()), ok2, why)
+			return true
+		})
+	}
+	if n == 0 {
+		c.undecided("C13.R8", "no construction of a decimal markup value (Value{FloatValue: …}) was found")
+	}
 }
